@@ -131,18 +131,18 @@ func LoadContracts(prog *ssa.Program, pkgs []*packages.Package) *Contracts {
 			c.fnIndex[p.Pkg.Name()+":"+alt] = fn
 		}
 	}
-	for _, p := range pkgs {
+	packages.Visit(pkgs, nil, func(p *packages.Package) {
 		if !strings.HasPrefix(p.PkgPath, "github.com/ossrs/go-oryx-lib") {
-			continue
+			return
 		}
 		sp := prog.Package(p.Types)
 		if sp == nil {
-			continue
+			return
 		}
 		for _, f := range p.Syntax {
 			c.parseFile(prog, p, sp, f)
 		}
-	}
+	})
 	sort.Slice(c.list, func(i, j int) bool { return c.list[i].Target < c.list[j].Target })
 	return c
 }
